@@ -111,14 +111,29 @@ def r2_one_context(ctx, R2, ssl_kw):
         ctx.ob(R2, newpool.qual, f"pool is pool_classes_by_scheme[scheme](host, port, **context) from the keyed context only (context given: {given is False})", okc,
                "" if okc else f"returns {(r.ret or '')[:120]}", witness=r.witness(), node=newpool.node)
         for kind, key, val, loop in muts:
-            if kind == "pop":
+            if kind in ("pop", "del"):
                 ok, detail = True, "removal"
                 # SSL keywords may be stripped only for plain http
-                if loop and set(destruct(loop[0])[1] if destruct(loop[0])[0] == "const" else ()) & ssl_kw or (destruct(key or "")[0] == "each" and ssl_kw & set(_const_tuple(destruct(key)[1][0]))):
+                removed = set()
+                for t_ in list(loop[:1]) + [key or ""]:
+                    for x_ in subterms(t_):
+                        o_, a_ = destruct(x_)
+                        if o_ == "const" and isinstance(a_, (tuple, list, frozenset, set)):
+                            removed |= {y_ for y_ in a_ if isinstance(y_, str)}
+                        elif o_ == "const" and isinstance(a_, str):
+                            removed.add(a_)
+                        elif o_ == "tuple":
+                            removed |= set(_const_tuple(x_))
+                if removed & ssl_kw:
                     ok = http is True
                     detail = "SSL keywords stripped only for scheme http" if ok else "TLS settings are dropped for a non-http pool: pools with different TLS settings become interchangeable"
+            elif kind == "setdefault":
+                # setdefault(k, <constant>) only ever adds the default for a missing entry
+                ok = key == K("blocksize") and len(val or ()) == 1 and destruct(val[0])[0] == "const"
+                detail = "default for a missing entry" if ok else "adds a setting that was not keyed"
             elif kind == "store":
-                missing = r.is_none(T("get", C, K("blocksize"))) is True or r.cmp(K("blocksize"), "in", C) is False or r.is_none(T("idx", C, K("blocksize"))) is True
+                missing = r.is_none(T("get", C, K("blocksize"))) is True or r.cmp(K("blocksize"), "in", C) is False or r.is_none(T("idx", C, K("blocksize"))) is True \
+                    or any(isinstance(k2, str) and k2.startswith(f"{C}.setdefault({K('blocksize')},") and v2[1] is True for k2, v2 in r.st.facts.items())
                 ok = key == K("blocksize") and destruct(val or "")[0] == "const" and missing
                 detail = "default for a missing entry" if ok else "adds/overrides a setting that was not keyed"
             else:
@@ -300,6 +315,9 @@ def r7_proxy_context(ctx, R7):
         for i, e in enumerate(evs):
             if e[0] == "setitem" and e[1] == KW and destruct(e[2])[0] == "const":
                 stores[destruct(e[2])[1]] = (e[3], i)
+            if e[0] == "call" and e[1] == f"{KW}.update":
+                for k2, v2 in _kw(_args(e)).items():  # kw.update(a=x, b=y) is kw["a"] = x; kw["b"] = y
+                    stores[k2] = (v2, i)
             if e[0] == "store" and e[1] == "self":
                 fields[e[2]] = e[3]
         pcs = [x for x in subterms(fields.get("proxy_config", "")) if destruct(x)[0] == "new:ProxyConfig"]
@@ -310,6 +328,11 @@ def r7_proxy_context(ctx, R7):
         n_sup += len(sup_i)
         for nm, attr in (("_proxy", "proxy"), ("_proxy_headers", "proxy_headers"), ("_proxy_config", "proxy_config")):
             v = stores.get(nm)
+            if v is None and sup_i:
+                # the interpreter tracked the store into **kw itself: the entry then shows among the keyword arguments of the super call
+                skw = _kw(_args(evs[sup_i[0]]))
+                if nm in skw and f"**={KW}" in _args(evs[sup_i[0]]):
+                    v = (skw[nm], -1)
             # the field is written earlier on the path, so reading it back yields the stored value
             ok = v is not None and v[0] in (f"self.{attr}", fields.get(attr)) and bool(sup_i) and v[1] < sup_i[0]
             ctx.ob(R7, pxi.qual, f"context[{nm!r}] = self.{attr} before super().__init__", ok, (v[0][:80] if v else "missing"), witness=r.witness(), node=pxi.node)
